@@ -1549,6 +1549,11 @@ class Interp(Ops, Builtins, DynOps):
                 if isinstance(tx, tuple) and tx[0] == "field":
                     self.ctx.mutating()
                     self.havoc_field(tx[1], tx[2])
+                elif isinstance(tx, tuple) and tx[0] == "fieldof":
+                    # the callee may assign this one field of this one object: a write the caller's frame has to license
+                    o = self.eval_spec(tx[1], cf)
+                    t = self.class_models[o.cname].fields[tx[2]]
+                    self.setattr(o, tx[2], t.fresh(ctx, f"{tx[2]}_after_{short}"), node)
                 else:
                     mods.append(self.eval_spec(tx, cf).z)
             if mods:
